@@ -181,6 +181,11 @@ Section Run.
         | VInt p, VInt q => Ok (VInt (p + q)%Z)
         | _, _ => Fail "+ on unsupported values"
         end
+      else if String.eqb op "-" then
+        match x, y with
+        | VInt p, VInt q => Ok (VInt (p - q)%Z)
+        | _, _ => Fail "- on unsupported values"
+        end
       else if String.eqb op "<<" then
         match x, y with
         | VEnum t p, VInt q => Ok (VEnum t (Z.shiftl p q))
